@@ -73,6 +73,11 @@ def oracle(ctx, obs):
             continue
         npw += 1
         st = o["setup"]
+        if not all(1.0 < f64_of_hex(o["p"][k]) < 10.0 for k in ("n_p", "n_s", "n_i")):
+            # index_along returned 0 / NaN (direction within rounding of an optic axis after a failed angle search: property C02's
+            # finding F2); there is no physical phase-matched point here
+            ctx.count("unphysical_index_skipped")
+            continue
         q = box_quantities(o["p"])
         s = o["samples"]
         fpm = abs(cx(s[0]["v"]))
@@ -185,7 +190,7 @@ def run(ctx):
     n_pw, n_pt = (40, 4) if quick else (400, 16)
     obs = run_harness(ctx, binp, ["c05", ctx.seed, n_pw, n_pt], timeout=2400)
     npw = oracle(ctx, obs)
-    for o in [x for x in obs if x["kind"] == "pw"][:4]:
+    for o in [x for x in obs if x["kind"] == "pw" and all(1.0 < f64_of_hex(x["p"][k]) < 10.0 for k in ("n_p", "n_s", "n_i"))][:4]:
         q = box_quantities(o["p"])
         ctx.sample({"setup": o["setup"], "walkoff_x": q["x"], "peak_observed": abs(cx(o["samples"][0]["v"])), "peak_expected": q["peak_expected"],
                     "samples": [{"ff": f64_of_hex(s["ff"]), "ratio": abs(cx(s["v"])) / abs(cx(o["samples"][0]["v"]))} for s in o["samples"][1:4]]})
